@@ -3,6 +3,7 @@
 mod c04;
 mod builder;
 mod c05;
+mod disk;
 mod codec;
 mod lru;
 mod pick;
@@ -106,6 +107,7 @@ fn main() {
         "codec" => codec::run(&tier, seed, replay.as_deref(), &drv),
         "pick" => pick::run(&tier, seed, replay.as_deref(), &drv),
         "builder" => builder::run(&tier, seed, replay.as_deref(), &drv),
+        "disk" => disk::run(&tier, seed, replay.as_deref()),
         "c15" => {
             let sh = shard::parse_shard(&args);
             if sh.is_some() || replay.is_some() || std::env::var("VERIF_NOSHARD").is_ok() {
